@@ -188,7 +188,7 @@ def _run_main(ctx) -> None:
                     stops = True
             for c in n.calls():
                 if call_attr(c) == "set_value" and c.args and isinstance(c.func, ast.Attribute) and b.tagref(c.func.value, f) == "SYSTEM_STATE":
-                    if any(isinstance(x, ast.Attribute) and x.attr in ("Paused", "Holding") and norm(x.value) == "SystemStateEnum"
+                    if any(isinstance(x, ast.Attribute) and x.attr in ("Paused", "Holding", "Restarting") and norm(x.value) == "SystemStateEnum"
                            for x in ast.walk(c.args[0])):
                         stops = True
             if stops:
@@ -221,7 +221,7 @@ def _run_main(ctx) -> None:
     seen = {}
     for s in ex.reach:
         d = sd(s)
-        if d["started"] and d["sys"] in ("Paused", "Holding") and d["clk"] == "run" and d["pend"] is None:
+        if d["started"] and d["sys"] in ("Paused", "Holding", "Restarting") and d["clk"] == "run" and d["pend"] is None:
             key = (d["sys"], d["paused"], d["holding"], d["err"])
             if key not in seen:
                 seen[key] = s
@@ -290,5 +290,34 @@ def _r07e(ctx):
             else:
                 ctx.fail("R07e", st or tk, (st or tk).node, inst, f"self.{fl} stops the clock in on_tick and is only cleared by the UNPAUSE signal: after "
                          "Pause, Stop, Start the new run is Running with this clock frozen at 0 - thresholds on it never pass")
+        # ... and forgets the scopes/blocks of the previous run: every container the constructor creates and an event handler fills
+        # (the timers and stacks the clock value is computed from) is cleared or re-bound in on_start
+        init = c.methods.get("__init__")
+        if init is None or not gate:
+            continue
+        containers = {t.attr for t, v, s_ in assigned_attrs(init.node) if isinstance(t.value, ast.Name) and t.value.id == "self"
+                      and (isinstance(v, (ast.List, ast.Dict, ast.Set)) or (isinstance(v, ast.Call) and norm(v.func) in ("list", "dict", "set")))}
+        filled = set()
+        for mn, m in c.methods.items():
+            if mn in ("__init__", "on_start"):
+                continue
+            for x in ast.walk(m.node):
+                if isinstance(x, ast.Call) and isinstance(x.func, ast.Attribute) and x.func.attr in ("append", "add", "insert", "update", "setdefault") \
+                        and isinstance(x.func.value, ast.Attribute) and x.func.value.attr in containers:
+                    filled.add(x.func.value.attr)
+                if isinstance(x, ast.Subscript) and isinstance(x.ctx, ast.Store) and isinstance(x.value, ast.Attribute) and x.value.attr in containers:
+                    filled.add(x.value.attr)
+        for cn in sorted(filled):
+            n += 1
+            inst = f"{c.name}.on_start empties self.{cn}"
+            cleared = st is not None and (any(isinstance(x, ast.Call) and isinstance(x.func, ast.Attribute) and x.func.attr == "clear"
+                                              and isinstance(x.func.value, ast.Attribute) and x.func.value.attr == cn for x in ast.walk(st.node))
+                                          or any(t.attr == cn for t, v, s_ in assigned_attrs(st.node)))
+            if cleared:
+                ctx.ok("R07e", inst)
+            else:
+                ctx.fail("R07e", st or tk, (st or tk).node, inst, f"self.{cn} still holds the scopes/blocks of the previous run when the next one starts: "
+                         "run 1 for 3 s, Stop, Start - in the second tick of the new run Scope Time jumps 0.0 -> 3.1 s while Run Time is 0.1 s "
+                         "(the old timers keep counting); a run stopped inside an active Watch leaves Scope Time stuck in the next run")
     if n == 0:
         raise AnchorError("R07e: no clock tag with a pause gate found")
